@@ -2,6 +2,7 @@ package props
 
 import (
 	"fmt"
+	"github.com/ProtonMail/gluon/imap"
 	"sort"
 	"strconv"
 	"strings"
@@ -29,7 +30,7 @@ func (C15) ID() string { return "C15" }
 
 const c15Box = "box1"
 
-var c15Kinds = []string{"search", "append", "store", "expunge", "ownstore", "deliver", "noop", "reselect"}
+var c15Kinds = []string{"search", "append", "store", "expunge", "ownstore", "deliver", "noop", "reselect", "cdelete"}
 
 func (C15) Generate(r *core.Rand, tier string, idx int) *core.Scenario {
 	sc := &core.Scenario{Property: "C15", Cfg: map[string]int{}}
@@ -70,7 +71,7 @@ func (C15) Generate(r *core.Rand, tier string, idx int) *core.Scenario {
 	sc.Actions = append(sc.Actions, core.Action{K: "reselect", A: ints(2)})
 	n := r.Range(15, 40)
 	//                search app sto exp own del noop resel
-	weights := []int{50, 6, 9, 6, 3, 9, 3, 1}
+	weights := []int{50, 6, 9, 6, 3, 9, 3, 1, 3}
 	for i := 0; i < n; i++ {
 		k := c15Kinds[r.Weighted(weights)]
 		a := core.Action{K: k}
@@ -233,6 +234,26 @@ func (x *c15Run) fresh1() bool {
 func (x *c15Run) exec(a core.Action) {
 	e := x.e
 	switch a.K {
+	case "cdelete":
+		// the remote deletes a message: it is marked deleted in the index but stays in the
+		// searching session's view until a command may announce the EXPUNGE
+		u := e.W.Users[0]
+		ids := make([]string, 0, len(u.Conn.Msgs))
+		for id := range u.Conn.Msgs {
+			ids = append(ids, string(id))
+		}
+		sort.Strings(ids)
+		if len(ids) == 0 {
+			return
+		}
+		id := imap.MessageID(ids[abs(a.Arg(0))%len(ids)])
+		res := e.W.Submit(u, imap.NewMessagesDeleted(id))
+		u.Conn.ForgetMessage(id)
+		e.Tr.Event("cdelete", string(id), res.Done, res.Err != nil)
+		e.St.Probes["remote_deleted"]++
+		if x.sel0 {
+			x.crossed++
+		}
 	case "append":
 		x.nextMark++
 		m := c15Build(x.nextMark, core.NewRand(core.Mix(e.Sc.Seed, uint64(a.Arg(0))*7919+uint64(x.nextMark))), e.Sc.C("tz") == 1, e.Sc.C("duphdr") == 1, e.Sc.C("day1") == 1, e.Sc.C("baddate") == 1)
